@@ -8,6 +8,8 @@ CONSTANTS
   Lifecycle = "inline"
   SecondCheck = TRUE
   Filter = TRUE
+  MaxFail = 0
+  GiveBack = FALSE
 CONSTRAINT Hwm
-INVARIANTS AtMostOnce NoStaleInvoke QueueBound
+INVARIANTS SeqnoUnique AtMostOnce NoStaleInvoke QueueBound
 POSTCONDITION Accepted
